@@ -36,7 +36,8 @@ var c10Defs = []struct {
 // geographic sample positions (lon, lat), valid for every definition above
 // (the second one is written in the 0..360 convention: a longitude outside [-180, 180] is legal input and must be treated
 // the same way on every call)
-var c10Pos = [][2]float64{{-93.25, 44.5}, {268.25, 38.125}, {-94.6, 47.03}}
+// the third one is the origin: the one input whose coordinates equal the zero value of a float64
+var c10Pos = [][2]float64{{-93.25, 44.5}, {268.25, 38.125}, {0, 0}}
 
 func internXY(x, y float64, err error, pan string) string {
 	if pan != "ok" {
